@@ -7,6 +7,11 @@ import Marwood.Lemmas.EvalDerivedCond
 import Marwood.Lemmas.EvalDerivedExpand
 import Marwood.Lemmas.EvalDerived2
 import Marwood.Lemmas.EvalDerived2Case2
+import Marwood.Lemmas.EvalConverseDerivedCase
+import Marwood.Lemmas.EvalConverseRank
+import Marwood.Lemmas.EvalPromiseMain
+import Marwood.Lemmas.EvalPromiseExamples
+import Marwood.Lemmas.EvalPromiseDemo
 import Marwood.Lemmas.CompileCorrect
 import Marwood.Lemmas.CompileCorrectDemo
 import Marwood.Lemmas.CompileCorrectLoop
@@ -752,6 +757,237 @@ example : (guardN 4).eval (orUse [.bool false, L [s ['c','a','r'], L [s k_quote,
 example : (guardN 4).eval (condUse [L [.bool false], L [s k_else_, .num (.fix 1)]]) [] initSt ≠ .timeout ∧
     (guardN 4).eval (condUse [L [.num (.fix 7), s k_arrow, s ['l','i','s','t']], L [s k_else_, .num (.fix 1)]]) [] initSt ≠ .timeout :=
   ⟨definiteB_ne (by decide +kernel), definiteB_ne (by decide +kernel)⟩
+
+
+/-! ## T01.2 second half, CONVERSE direction: expansion definite ⇒ native definite, related outcome
+
+`agrees_unique` says the related outcome is the expansion's ONLY definite outcome; what it does not say
+is that the native form is definite whenever the expansion is. That needs a simulation from the LARGER
+store (the expansion's: `k` extra cells) to the smaller (`Lemmas/EvalConverse*.lean`: `ResRelR`, `SimR`,
+`recSimR`; same relations `VRel f`, `StRel f`). The guard moves to the expansion's side and gets slack:
+the store-size-fuelled helpers have `k` units of fuel LESS in the native store, so the expansion's run
+must stay `k` short of their bound (`sguardN k`: no cut with fuel `store.size + 1 - k`; `cut_transfer`).
+`sguardN k n ⊑ evalN n` (`slack_guarded_refines`), and the guards never fire on ACYCLIC data that is
+shallower than the helper fuel (`guards_quiet_on_ranked_data`: a rank function decreasing along the edges
+of the store; `guards_quiet_on_allocation_ordered_store`: e.g. every store in which cells only point to
+older cells — what `cons`/`list`/`vector`/`quote` build before any `set-car!`/`set-cdr!`/`vector-set!`). -/
+
+open Marwood.Spec.Eval.Conv
+
+/-- the slack-guarded evaluator is `Spec.Eval` wherever it is definite -/
+theorem slack_guarded_refines (k n : Nat) (e : Datum) (ρ : Env) (st : St) (h : (sguardN k n).eval e ρ st ≠ .timeout) :
+    (evalN n).eval e ρ st = (sguardN k n).eval e ρ st := sguardN_eval_evalN k n e ρ st h
+
+/-- slack 0 is the guard of the forward direction -/
+theorem slack_zero_is_guard (r : Rec) (f : Val) (args : List Val) : sguardApply 0 r f args = guardApply r f args :=
+  sguardApply_zero r f args
+
+/-- **Extra-cell invariance, converse.** `f` injective, at most `k` extra cells (`f l ≤ l + k`). If the run
+    in the LARGER store `st'` (fuel `n`) is definite and stays `k` short of the helpers' bound, the run in
+    the smaller store `st` with the same fuel is definite, does not hit its own guard, and has the related
+    outcome. -/
+theorem extra_cell_invariance_converse {f : LMap} (hf : Inj f) {k : Nat} (hfk : ∀ l, f l ≤ l + k) (n : Nat) (e : Datum)
+    {B : List Text} {ρ ρ' : Env} (he : EnvRel f B ρ ρ') (hc : CleanB B e) {st st' : St} (rs : StRel f st st') :
+    ResRelR f (VRel f) ((guardN n).eval e ρ st) ((sguardN k n).eval e ρ' st') :=
+  extra_cell_invariance_conv_guard hf hfk n e he hc rs
+
+/-- what `ResRelR` says when the larger run is definite: the smaller is definite and forward-related -/
+theorem converse_gives_forward {f : LMap} {res res' : Res Val} (h : ResRelR f (VRel f) res res') (hd : res' ≠ .timeout) :
+    res ≠ .timeout ∧ ResRel f (VRel f) res res' := ⟨h.definite hd, h.to_fwd hd⟩
+
+/-- when the guards do not fire: data of rank (depth) below the helper fuel, `rk` decreasing along the
+    edges of the store (acyclic) -/
+theorem guards_quiet_on_ranked_data {σ : Array Cell} {rk : Loc → Nat} (h : Ranked σ rk) (F : Nat) (f : Val) (args : List Val)
+    (ha : ∀ a ∈ args, valRank rk a < F) : helperCutAt F f args σ = false := helperCutAt_of_ranked h F f args ha
+
+/-- … in particular never (slack 0) in a store whose cells only point to older cells -/
+theorem guards_quiet_on_allocation_ordered_store {σ : Array Cell} (h : OlderOnly σ) (f : Val) (args : List Val)
+    (ha : ∀ a ∈ args, valRank (fun l => l) a ≤ σ.size) : helperCut f args σ = false := helperCut_of_olderOnly h f args ha
+
+/-- the prelude's transformer for `name` rewrites `use` to `exp`, and whenever `exp` is definite (slack `k`)
+    the native `use` is definite with the same fuel and the related outcome -/
+def ExpandsAndAgreesConversely (name : Text) (k : Nat) (use : Datum) (ρ : Env) (st : St) : Prop :=
+  ∃ exp, expand name use = some exp ∧ AgreesConv k use exp ρ st
+
+theorem t01_2_or_converse (ρ : Env) (e e2 : Datum) (es : List Datum) (st : St) (hst : WFSt st) (hρ : EnvOK st.store.size ρ)
+    (hfree : ∀ d ∈ e2 :: es, mentions k_var1 d = false) :
+    ExpandsAndAgreesConversely k_or_ 1 (orUse (e :: e2 :: es)) ρ st :=
+  ⟨_, expand_or _, or_agrees_conv ρ e e2 es st hst hρ hfree⟩
+
+theorem t01_2_cond_test_converse (ρ : Env) (t c : Datum) (cs : List Datum) (ht : t ≠ s k_else_) (st : St) (hst : WFSt st)
+    (hρ : EnvOK st.store.size ρ) (hfree : ∀ d ∈ c :: cs, mentions k_temp d = false) :
+    ExpandsAndAgreesConversely k_cond 1 (condUse (L [t] :: c :: cs)) ρ st :=
+  ⟨_, expand_cond_test t (c :: cs), cond_test_agrees_conv ρ t c cs ht st hst hρ hfree⟩
+
+theorem t01_2_cond_arrow_converse (ρ : Env) (t f : Datum) (cs : List Datum) (ht : t ≠ s k_else_)
+    (hf : ∀ x, f = .sym x → kwOf x = none) (st : St) (hst : WFSt st) (hρ : EnvOK st.store.size ρ)
+    (hfree : ∀ d ∈ f :: cs, mentions k_temp d = false) :
+    ExpandsAndAgreesConversely k_cond 1 (condUse (L [t, s k_arrow, f] :: cs)) ρ st :=
+  ⟨_, expand_cond_arrow t f cs ht, cond_arrow_agrees_conv ρ t f cs ht hf st hst hρ hfree⟩
+
+theorem t01_2_case_key_converse (ρ : Env) (ks : List Datum) (c : Datum) (cs : List Datum) (st : St) (hst : WFSt st)
+    (hρ : EnvOK st.store.size ρ) (hfree : ∀ d ∈ c :: cs, mentions k_atomKey d = false) :
+    ExpandsAndAgreesConversely k_case_ 1 (caseUse (L ks) (c :: cs)) ρ st :=
+  ⟨_, expand_case_key ks (c :: cs), case_key_agrees_conv ρ ks c cs st hst hρ hfree⟩
+
+/-- slack = number of data of the clause (the quoted list the expansion allocates); NB the expansion's own
+    `memv` walks that list, so the slack-guarded run is definite only from stores with at least that many
+    cells (vacuous from the initial state: see the example in `Lemmas/EvalConverseDerivedCase.lean`) -/
+theorem t01_2_case_body_converse (ρ : Env) (k : Datum) (atoms : List Datum) (r1 : Datum) (rs cs : List Datum)
+    (hr : ¬ (r1 = s k_arrow ∧ rs.length = 1)) (hat : ∀ d ∈ atoms, simpleAtom d = true) (hkey : atomKey k = true)
+    (st : St) (hst : WFSt st) (hρ : EnvOK st.store.size ρ) (hρm : ρ.lookup k_memv = none)
+    (hg : st.globals.lookup k_memv = some (.prim .memv)) :
+    ExpandsAndAgreesConversely k_case_ atoms.length (caseUse k (L (L atoms :: r1 :: rs) :: cs)) ρ st :=
+  ⟨_, expand_case_body k atoms r1 rs cs (atomKey_not_list hkey) hr,
+    case_body_agrees_conv ρ k atoms r1 rs cs hr hat hkey st hst hρ hρm hg⟩
+
+theorem t01_2_case_arrow_converse (ρ : Env) (k : Datum) (atoms : List Datum) (f : Datum) (cs : List Datum)
+    (hf : ∀ x, f = .sym x → kwOf x = none) (hat : ∀ d ∈ atoms, simpleAtom d = true) (hkey : atomKey k = true)
+    (st : St) (hst : WFSt st) (hρ : EnvOK st.store.size ρ) (hρm : ρ.lookup k_memv = none)
+    (hg : st.globals.lookup k_memv = some (.prim .memv)) :
+    ExpandsAndAgreesConversely k_case_ atoms.length (caseUse k (L [L atoms, s k_arrow, f] :: cs)) ρ st :=
+  ⟨_, expand_case_arrow k atoms f cs (atomKey_not_list hkey),
+    case_arrow_agrees_conv ρ k atoms f cs hf hat hkey st hst hρ hρm hg⟩
+
+/-- the converse delivers definiteness of the native form -/
+theorem converse_native_definite {k : Nat} {use exp : Datum} {ρ : Env} {st : St} (h : AgreesConv k use exp ρ st)
+    (m : Nat) (hd : (sguardN k m).eval exp ρ st ≠ .timeout) : (evalN m).eval use ρ st ≠ .timeout :=
+  h.native_definite m hd
+
+/-- non-vacuity: the slack-guarded runs of the expansions of `(or #f (car '(7)))` and `(cond (#f) (else 1))`
+    from the initial state are definite -/
+example : (sguardN 1 5).eval (orExp [.bool false, L [s ['c','a','r'], L [s k_quote, L [.num (.fix 7)]]]]) [] initSt ≠ .timeout ∧
+    (sguardN 1 5).eval (condTestExp (.bool false) [L [s k_else_, .num (.fix 1)]]) [] initSt ≠ .timeout :=
+  ⟨definiteB_ne (by decide +kernel), definiteB_ne (by decide +kernel)⟩
+
+
+/-! ## T01.2 second half for `delay` / `force` (a change of REPRESENTATION)
+
+`Spec.Eval` has native promises (one cell `Cell.promise done value-or-thunk`, a primitive `force`); the
+prelude has none: `(delay e)` expands (rule of `delay`, then rule of `delay-force`) to
+`(make-promise #f (lambda () (make-promise #t e)))` and `make-promise`, `force`, `promise-done?`,
+`promise-value`, `promise-update!` are library procedures representing a promise as the list
+`((done? . value-or-thunk))`. So the two sides run DIFFERENT code after the expansion and no location
+map relates a promise cell to one cell. What is proved (`Lemmas/EvalPromise*.lean`):
+
+* `prelude_promise_library`: evaluating the five regenerated definitions binds exactly the closures the
+  proofs are about (a change to `prelude.scm` breaks this);
+* `PromRep`: the representation relation (native cell ↔ root pair + box pair, same done flag, payloads:
+  values related, thunks `(lambda () e)` ↔ `(lambda () (make-promise #t e))` in the same environment);
+* `t01_2_delay_unforced`: `(delay e)` on both sides builds representations of one unforced promise, no effect;
+* `t01_2_delay`: `(force (delay e))` — native (guarded with slack 1) definite ⇒ the expansion, run with the
+  prelude's library, has the same kind of outcome, error class, output log, a value that is the image of
+  the same value (`SpanAgree`: both runs are images, under injective location maps, of the evaluation of
+  `e` at the use), and BOTH promises end up forced holding it (memoised);
+* `t01_2_force_again`: forcing a forced promise returns the payload on both sides without output and
+  without running user code (so: forced several times = evaluated once);
+* kernel-checked programs (`Lemmas/EvalPromiseExamples.lean`): forced twice prints once, never forced
+  prints nothing, the R7RS re-entrancy example answers 6 and 6, a `delay-force` chain.
+
+RESTRICTION (the fragment): the delayed expression `e` and every value of the state do not mention the
+symbol `force` (`mentions k_force e = false`, `Inv k_force st`: promises are manipulated through the one
+outer `force` only — the native and the prelude's `force` are different global values, and the frame
+property T01.1 removes the difference), `e` is not a definition, `force` / `make-promise` are not
+lexically shadowed at the use (the hygiene finding), and evaluating `e` leaves the library's global
+bindings alone (`hkeep`; a program that redefines `car` breaks the prelude's `force` but not a native
+one). For `delay-force` `Spec.Eval` has no native meaning: first half (`t01_2_first_half_rest`) plus the
+chain example against the R7RS reading `(delay (force e))`. -/
+
+/-- the regenerated library definitions evaluate to the closures of `Lemmas/EvalPromise.lean` -/
+theorem prelude_promise_library (n : Nat) (st : St) :
+    evalTop (evalN (n+2)) Gen.PreludeProcs.proc14 st = .ok .void { st with globals := insertG k_makePromise cMakePromise st.globals } ∧
+    evalTop (evalN (n+2)) Gen.PreludeProcs.proc15 st = .ok .void { st with globals := insertG k_force cForce st.globals } ∧
+    evalTop (evalN (n+2)) Gen.PreludeProcs.proc16 st = .ok .void { st with globals := insertG k_promiseDone cDone st.globals } ∧
+    evalTop (evalN (n+2)) Gen.PreludeProcs.proc17 st = .ok .void { st with globals := insertG k_promiseValue cValue st.globals } ∧
+    evalTop (evalN (n+2)) Gen.PreludeProcs.proc18 st = .ok .void { st with globals := insertG k_promiseUpdate cUpdate st.globals } :=
+  ⟨load_makePromise n st, load_force n st, load_done n st, load_value n st, load_update n st⟩
+
+/-- first half for `delay`: two macro steps with the regenerated rules give `delayFull e` -/
+theorem t01_2_delay_expands (e : Datum) :
+    ∃ mid, expand k_delay (delayUse e) = some mid ∧ expand k_delayForce mid = some (delayFull e) := expand_delay_full e
+
+/-- **zero forces**: `(delay e)` natively and expanded build an unforced promise / its representation,
+    evaluate nothing, print nothing -/
+theorem t01_2_delay_unforced (k : Nat) (e : Datum) (ρ : Env) (st : St) (hlib : LibOK st.globals)
+    (hρ2 : ρ.lookup k_makePromise = none) :
+    ∃ sN sX, (evalN (k+1)).eval (delayUse e) ρ st = .ok (.promise st.store.size) sN ∧
+      (evalN (k+5)).eval (delayFull e) ρ (withForce st) = .ok (.pair (st.store.size + 3)) sX ∧
+      sN.out = st.out ∧ sX.out = st.out ∧
+      PromRep (fun _ _ => False) sN.store sX.store st.store.size (st.store.size + 3) := by
+  refine ⟨{ st with store := st.store.push (.promise false (thunkN e ρ)) }, _, ?_,
+    delayX_eval k e ρ (withForce st) (libSt_withForce hlib) hρ2, rfl, rfl, ?_⟩
+  · simp only [delayUse, L, s, Datum.ofList, evalN_succ_eval, evalStep, kwOf_delay, evalKw, properList]
+    rfl
+  · refine ⟨false, thunkN e ρ, thunkX e ρ, by simp, ⟨st.store.size + 2, ?_, ?_⟩, .thunk e ρ⟩
+    · show (pushAll (withForce st).store _)[st.store.size + 3]? = _
+      simp only [pushAll, List.foldl, withForce]
+      exact get_push_eq _ (by simp [Array.size_push])
+    · show (pushAll (withForce st).store _)[st.store.size + 2]? = _
+      simp only [pushAll, List.foldl, withForce]
+      rw [get_push_lt _ (by simp [Array.size_push])]
+      exact get_push_eq _ (by simp [Array.size_push])
+
+/-- **forced once**: see the section comment. `st.store.size` is the native promise cell, `st.store.size + 3`
+    the root of the prelude's structure. -/
+theorem t01_2_delay (e : Datum) (ρ : Env) (st : St) (hst : WFSt st) (hρ : EnvOK st.store.size ρ)
+    (hdef : isDefine e = false) (hρ1 : ρ.lookup k_force = none) (hρ2 : ρ.lookup k_makePromise = none)
+    (hg : st.globals.lookup k_force = some (.prim .force)) (hlib : LibOK st.globals)
+    (hce : mentions k_force e = false) (hinv : Inv k_force st)
+    (hkeep : ∀ m v s2, (evalN m).eval e ρ (preX e ρ (withForce st)) = .ok v s2 → LibSt s2) :
+    (∃ mid, expand k_delay (delayUse e) = some mid ∧ expand k_delayForce mid = some (delayFull e)) ∧
+    ∀ m, (sguardN 1 (m+3)).eval (forceUse (delayUse e)) ρ st ≠ .timeout →
+      (evalN (m+3)).eval (forceUse (delayUse e)) ρ st = (sguardN 1 (m+3)).eval (forceUse (delayUse e)) ρ st ∧
+      SpanAgree ((evalN (m+3)).eval (forceUse (delayUse e)) ρ st)
+        ((evalN (m+3+9)).eval (forceUse (delayFull e)) ρ (withForce st)) st.store.size (st.store.size + 3) :=
+  ⟨expand_delay_full e, fun m hd => force_delay_agrees e ρ st hst hρ hdef hρ1 hρ2 hg hlib hce hinv hkeep m hd⟩
+
+/-- what `SpanAgree` says about the observable parts -/
+theorem promise_agrees_observables {resN resX : Res Val} {l0 p0 : Loc} (h : SpanAgree resN resX l0 p0) :
+    (∃ vN sN vX sX, resN = .ok vN sN ∧ resX = .ok vX sX ∧ sX.out = sN.out ∧
+        (∃ vI f1 f2, VRel f1 vI vN ∧ VRel f2 vI vX) ∧
+        sN.store[l0]? = some (.promise true vN) ∧ PromStruct sX.store p0 true vX) ∨
+    (∃ c sN sX, resN = .err c sN ∧ resX = .err c sX ∧ sX.out = sN.out) := h.observe
+
+/-- **forced again** (hence: several times): on a forced promise the native `force` and the prelude's return
+    the payloads, print nothing, run no user code; the old cells of both stores stay as they are -/
+theorem t01_2_force_again (k : Nat) (l p : Loc) (v w : Val) (sN sX : St) (hl : LibSt sX)
+    (hN : sN.store[l]? = some (.promise true v)) (hX : PromStruct sX.store p true w) :
+    (evalN (k+1)).apply (.prim .force) [.promise l] sN = .ok v sN ∧
+    ∃ s3, (evalN (k+7)).apply cForce [.pair p] sX = .ok w s3 ∧ s3.out = sX.out ∧ s3.globals = sX.globals ∧
+      (∀ l', l' < sX.store.size → s3.store[l']? = sX.store[l']?) := by
+  refine ⟨?_, ?_⟩
+  · show applyStep (evalN k) (.prim .force) [.promise l] sN = _
+    simp only [applyStep]
+    show M.bind' (readCell l) _ sN = _
+    simp [M.bind', readCell, hN, Pure.pure, M.pure']
+  · obtain ⟨s3, h1, h2, h3, _, h5⟩ := forceX_done k p w sX hl hX
+    exact ⟨s3, h1, h2, h3, h5⟩
+
+/-- non-vacuity of `t01_2_delay`: in the initial state with the prelude's four internal promise procedures
+    loaded (`libSt0`; `force` still the primitive) and for `e = (begin (display 'x) 1)` every hypothesis
+    holds and the native slack-guarded run with fuel 6 is definite (`Lemmas/EvalPromiseDemo.lean`: `wf_libSt0`,
+    `libOK_libSt0`, `inv_libSt0`, `keep_libSt0`); hence: -/
+theorem t01_2_delay_demo :
+    SpanAgree ((evalN 6).eval (forceUse (delayUse eDisplayOne)) [] libSt0)
+      ((evalN 15).eval (forceUse (delayFull eDisplayOne)) [] (withForce libSt0)) 0 3 := force_delay_demo
+
+/-- kernel-checked programs, native vs. expansion with the regenerated library: forced twice prints once;
+    never forced prints nothing; R7RS re-entrancy: 6 and 6 on both sides (as on the real VM); a
+    `delay-force` chain -/
+theorem promise_programs_agree :
+    (results 12 [memoProg delayUse] = [.ok (.num (.fix 2))] ∧ output 12 [memoProg delayUse] = [(false, .sym ['x'])]) ∧
+    ((results 20 (promLibDefs ++ [memoProg delayFull])).getLast? = some (.ok (.num (.fix 2))) ∧
+      output 20 (promLibDefs ++ [memoProg delayFull]) = [(false, .sym ['x'])]) ∧
+    (output 12 [zeroProg delayUse] = [] ∧ output 20 (promLibDefs ++ [zeroProg delayFull]) = []) ∧
+    ((results 60 (reentrantProg delayUse)).drop 3 = [.ok (.num (.fix 6)), .ok (.num (.fix 6))] ∧
+      (results 80 (promLibDefs ++ reentrantProg delayFull)).drop 8 = [.ok (.num (.fix 6)), .ok (.num (.fix 6))]) ∧
+    (results 12 [chainNative] = [.ok (.num (.fix 3))] ∧
+      (results 30 (promLibDefs ++ [chainExp])).getLast? = some (.ok (.num (.fix 3)))) := by
+  refine ⟨memo_native, ⟨?_, memo_expansion.2⟩, ⟨unforced_native.2, unforced_expansion.2⟩, ⟨?_, ?_⟩, ⟨delayForce_chain.1, ?_⟩⟩
+  · rw [memo_expansion.1]; rfl
+  · rw [reentrant_native]; rfl
+  · rw [reentrant_expansion]; rfl
+  · rw [delayForce_chain.2]; rfl
 
 
 /-! ## T01.3 stage 1 (partial): compiler correctness for the closure-free fragment, success case
